@@ -31,8 +31,9 @@ package csync
 //
 //@ ginv G1: forall c: ref {grant(c)} :: grant(c) != nil ==> c != nil && cast(grant(c), Mutex).owner == c && (mxl(c) == grant(c) || mxt(c) == grant(c))
 //@ ginv G2: forall c: ref {mxl(c)} :: mxl(c) != nil && aint(c) == 1 ==> grant(c) == mxl(c)
-//@ ginv G3: forall c: ref {relby(c)} :: relby(c) != nil ==> grant(c) != nil && mxl(c) == grant(c) && aint(c) == 2
+//@ ginv G3: forall c: ref {relby(c)} :: relby(c) != nil ==> grant(c) != nil && ((mxl(c) == grant(c) && aint(c) == 2) || (mxt(c) == grant(c) && abool(c)))
 //@ ginv G4: forall c: ref {grant(c)} :: grant(c) != nil && mxl(c) == grant(c) ==> aint(c) == 1 || (aint(c) == 2 && relby(c) != nil)
+//@ ginv G4t: forall c: ref {grant(c)} :: grant(c) != nil && mxt(c) == grant(c) ==> !abool(c) || relby(c) != nil
 //@ ginv G5: forall c: ref {mxt(c)} :: mxt(c) != nil && !abool(c) ==> grant(c) == mxt(c)
 //@ ginv G6: forall c: ref {mxl(c)} :: mxl(c) != nil ==> mxt(c) == nil
 //
@@ -40,8 +41,10 @@ package csync
 //@   props C01 C02
 //@   opt frame = skip
 //@   requires ctx != nil
+//@   opt dead = ret3
 //@   ghost init status: mxl(status) := m
 //@   ensures held: result1 == nil ==> aint(status) == 1 && grant(status) == m
+//@   ensures fn: result1 == nil ==> result0 != nil
 //@   ensures failed: result1 != nil ==> result1 == context.Canceled && cancelled(ctx) && !written(m.locked)
 //@   loop 1 invariant waiting: aint(status) == 0 && !written(m.locked) && mxl(status) == m
 //@   loop 1 invariant parked: waitCh != nil && issuedBy(waitCh) == m.bcast && gettime(waitCh) == lastcs()
@@ -73,3 +76,46 @@ package csync
 //@   ghost exit: grant(m.owner) := nil
 //@   ghost exit: relby(m.owner) := nil
 //@   ghost exit: m.owner := nil
+//
+//@ func (*Mutex).TryLock
+//@   props C01 C02
+//@   opt frame = skip
+//@   ensures ok: result1 ==> !abool(unlocked) && grant(unlocked) == m
+//@   ensures fail: !result1 ==> !written(m.locked)
+//
+//@ closure (*Mutex).TryLock$1
+//@   props C01 C02
+//@   ghost exit: mxt(unlocked) := ite(abool(unlocked), mxt(unlocked), m)
+//@   ghost exit: grant(unlocked) := ite(abool(unlocked), grant(unlocked), m)
+//@   ghost exit: m.owner := ite(abool(unlocked), m.owner, unlocked)
+//
+//@ func (*Mutex).TryLock$2
+//@   props C01 C02
+//@   opt frame = skip
+//@   captured mxt(unlocked) == m && m != nil && unlocked != nil
+//@   ghost atomic 1: relby(unlocked) := ite(ret, relby(unlocked), me)
+//@   ensures released: grant(unlocked) == nil || relby(unlocked) != me
+//
+//@ closure (*Mutex).TryLock$2$1
+//@   props C01 C02
+//@   ghost exit: grant(m.owner) := nil
+//@   ghost exit: relby(m.owner) := nil
+//@   ghost exit: m.owner := nil
+//
+// MutexLocker: Lock stores the release function of one successful Mutex.Lock; Unlock takes it out with an
+// atomic swap (so it is called at most once) and calls it.
+//
+//@ ginv GL: forall l: *MutexLocker :: l != nil && aptr(l.rel) != nil ==> cellval(aptr(l.rel)) != nil
+//
+//@ object MutexLocker
+//@   props C01 C13
+//@   atomic rel
+//@   immutable m
+//
+//@ func (*MutexLocker).Lock
+//@   props C01 C13
+//@   opt frame = skip
+//
+//@ func (*MutexLocker).Unlock
+//@   props C01 C13
+//@   opt frame = skip
